@@ -287,6 +287,9 @@ def _sym_exec(fn, comb, args, frame, c0, c1):
             return ev(e.func.value)
         if isinstance(e, ast.Subscript) and isinstance(e.value, ast.Name) and e.value.id == frame:
             return ('col', ev(e.slice))
+        # a if c else b : the arm the condition selects (without a reference model)
+        if isinstance(e, ast.IfExp):
+            return ev(e.body if cond(e.test) else e.orelse)
         raise Inconclusive(f'expression {ast.unparse(e)[:60]}')
 
     def cond(t):
